@@ -30,34 +30,34 @@ pub fn spec() -> PropSpec {
 
 macro_rules! fixed_lin {
     ($v:ident, $q:expr, $qs:expr; $($n:literal),*) => { $(
-        $v.push(SubCheck::new(format!("fixed/linear/U{}", 64*$n), $q, fixed::linear_case::<$n>).tape(48 + 12 * $n));
-        $v.push(SubCheck::new(format!("fixed/special/U{}", 64*$n), $qs, fixed::special_case::<$n>).tape(48 + 12 * $n));
+        $v.push(SubCheck::new(format!("fixed/linear/U{}", 64*$n), $q, fixed::linear_case::<$n>).tape(64 + 6 * $n).thorough(10));
+        $v.push(SubCheck::new(format!("fixed/special/U{}", 64*$n), $qs, fixed::special_case::<$n>).tape(64 + 6 * $n).thorough(10));
     )* };
 }
 macro_rules! fixed_mul {
     ($v:ident, $q:expr; $(($n:literal, $w:literal)),*) => { $(
-        $v.push(SubCheck::new(format!("fixed/mul+halve/U{}", 64*$n), $q, fixed::mul_case::<$n, $w>).tape(48 + 12 * $n));
+        $v.push(SubCheck::new(format!("fixed/mul+halve/U{}", 64*$n), $q, fixed::mul_case::<$n, $w>).tape(64 + 6 * $n).thorough(10));
     )* };
 }
 macro_rules! const_halve {
     ($v:ident, $q:expr; $(($m:ident, $n:literal)),*) => { $(
-        $v.push(SubCheck::new(format!("const/halve/{}", stringify!($m)), $q, fixed::const_halve_case::<fixed::cm::$m, $n>).tape(48 + 12 * $n));
+        $v.push(SubCheck::new(format!("const/halve/{}", stringify!($m)), $q, fixed::const_halve_case::<fixed::cm::$m, $n>).tape(64 + 6 * $n).thorough(10));
     )* };
 }
 
 fn subchecks(_ctx: &Ctx) -> Vec<SubCheck> {
     let mut v = vec![];
-    fixed_lin!(v, 150000, 120000; 1, 2, 3, 4);
-    fixed_lin!(v, 100000, 80000; 6, 8);
-    fixed_lin!(v, 60000, 50000; 12, 16);
-    fixed_mul!(v, 80000; (1, 2), (2, 4), (3, 6), (4, 8));
-    fixed_mul!(v, 40000; (6, 12), (8, 16));
-    fixed_mul!(v, 20000; (12, 24), (16, 32));
+    fixed_lin!(v, 400000, 300000; 1, 2, 3, 4);
+    fixed_lin!(v, 250000, 200000; 6, 8);
+    fixed_lin!(v, 150000, 120000; 12, 16);
+    fixed_mul!(v, 200000; (1, 2), (2, 4), (3, 6), (4, 8));
+    fixed_mul!(v, 100000; (6, 12), (8, 16));
+    fixed_mul!(v, 50000; (12, 24), (16, 32));
     // compile-time moduli; the two tiny ones only have 9 / 1 distinct residue pairs
     const_halve!(v, 300; (M64x3, 1), (M128One, 2));
-    const_halve!(v, 10000; (M64Max, 1), (M64Half, 1), (M128Max, 2), (M192P, 3), (M256N, 4), (M256Half, 4), (M384Small, 6), (M1024Top, 16));
-    v.push(SubCheck::new("boxed/linear/1..=20", 250000, boxedc::linear_case).tape(300));
-    v.push(SubCheck::new("boxed/special/1..=20", 250000, boxedc::special_case).tape(300));
-    v.push(SubCheck::new("boxed/mul+halve/1..=20", 150000, boxedc::mul_case).tape(300));
+    const_halve!(v, 25000; (M64Max, 1), (M64Half, 1), (M128Max, 2), (M192P, 3), (M256N, 4), (M256Half, 4), (M384Small, 6), (M1024Top, 16));
+    v.push(SubCheck::new("boxed/linear/1..=20", 600000, boxedc::linear_case).tape(200).thorough(10));
+    v.push(SubCheck::new("boxed/special/1..=20", 600000, boxedc::special_case).tape(200).thorough(10));
+    v.push(SubCheck::new("boxed/mul+halve/1..=20", 400000, boxedc::mul_case).tape(200).thorough(10));
     v
 }
